@@ -45,7 +45,8 @@ pub fn gen_text(rng: &mut Rng) -> String {
 }
 
 pub fn gen_call(rng: &mut Rng, nlines: u32) -> Call {
-    match rng.weighted(&[56, 24, 14, 6]) {
+    match rng.weighted(&[54, 23, 13, 6, 4]) {
+        4 => Call::CloneGetLine(rng.below(nlines as u64 + 1) as u32),
         3 => {
             // a line request with a UTF-16 window: goes through get_line like the others
             let l = rng.below(nlines as u64 + 1) as u32;
@@ -174,6 +175,7 @@ impl Scenario {
                 Call::LineCount => vec![Call::GetLine(0)],
                 Call::GetLine(i) if *i == u32::MAX => vec![Call::GetLine(1), Call::GetLine(0)],
                 Call::GetLine(i) if *i > 0 => vec![Call::GetLine(i - 1)],
+                Call::CloneGetLine(i) => vec![Call::GetLine(*i)],
                 _ => vec![],
             }
         };
